@@ -188,6 +188,18 @@ func runC40(w *World, r *Report) {
 			}
 		})
 
+		// end-relative forms: x[len(x)-k], s[a:len(s)-b]
+		have := map[ssa.Instruction]bool{}
+		for _, s := range sites {
+			have[s.instr] = true
+		}
+
+		for _, s := range c07SliceSites(fn) {
+			if !have[s.instr] {
+				sites = append(sites, s)
+			}
+		}
+
 		for _, s := range sites {
 			key := mkKey("index " + sprintInt(int(s.k)))
 			if ok, why := indexSiteGuarded(fn, s); ok {
